@@ -18,7 +18,7 @@ claim("C10", "small-scope exhaustive enumeration of shot multisets x operators (
       "Every multiset of bitstrings up to the width/shot bound (two list orders), every ordered list of <=3 Z-subsets as operator, Bessel on/off, every count/distribution/parity query, and every history of <=D public mutations and queries; complete for the bounds.",
       "Fraction arithmetic as oracle; floats compared at 1e-12.",
       "DESIGN.md 4/C10")
-claim("C12", "explicit-state breadth-first search over assignment/binding histories on real Wavefunction objects, states de-duplicated by canonical amplitude tuple, every transition compared with a list model",
+claim("C12", "explicit-state breadth-first search over assignment/binding histories on real Wavefunction objects, states de-duplicated by (representation of the amplitude store, canonical amplitude tuple), events = element/slice assignment, bind, flip; every transition compared with a list model",
       "All histories up to the depth bound from numeric, symbolic and mixed roots; every transition judged (reject => unchanged, accept => written and normalised), invariant evaluated in every state; Dicke states for all n,k in range, bit reversal on index vectors, save/load on reachable states.",
       "Canonical state = amplitude tuple (a Wavefunction has no other field). Alphabet keeps norms away from the np.isclose edge.",
       "DESIGN.md 4/C12")
